@@ -348,7 +348,10 @@ def impl_rewrite(op):
     out = {'ok': True, 'init': graph_state(g), 'steps': []}
     for st in op['steps']:
         try:
-            with_alarm(10.0, lambda: apply_step(g, st))
+            with_alarm(3.0, lambda: apply_step(g, st))
+        except CaseTimeout:
+            out['steps'].append({'err': 'fuel'})        # non-termination (cyclic / inconsistent input)
+            break
         except (AssertionError, ValueError, KeyError, TypeError, IndexError, RuntimeError) as ex:
             out['steps'].append({'err': err_kind(ex)})
             break
@@ -746,7 +749,12 @@ def gen_layered_graph(rng, L=None, idbase=None, charged=None, maxw=3, dangling=F
             for e in others:
                 if rng.random() < 0.7 or e is others[0]:
                     ne2 += 1
-                    opics = [list(p) for p in e[2]] if rng.random() < 0.6 else [[int(rng.integers(0, 3)), enc(float(rng.choice([0.5, 1.0, 2.0])))]]
+                    if rng.random() < 0.6:
+                        opics = [list(p) for p in e[2]]
+                    else:
+                        ends = (v2, e[1][1]) if side == 0 else (e[1][0], v2)
+                        cand = {0: [0, 3], 1: [1], -1: [2]}.get(qn[ends[1]] - qn[ends[0]], [5]) if charged else [0, 1, 2]
+                        opics = [[int(cand[int(rng.integers(0, len(cand)))]), enc(float(rng.choice([0.5, 1.0, 2.0])))]]
                     edges.append([ne2, [v2, e[1][1]] if side == 0 else [e[1][0], v2], opics])
         nn = len(nids)
     order = [int(i) for i in rng.permutation(len(edges))]
